@@ -318,6 +318,43 @@ func main() {
 		_ = *vrt.Rd(&x, "x")
 	}, "")
 
+	// slice elements behind a copied header: the header is copied under the
+	// lock, the elements are read after the unlock while the owner compacts
+	// the backing array in place under the lock
+	run("race/slice-header-copied-under-lock", 2, race, func(out *string) {
+		files := make([]string, 2, 4)
+		files[0], files[1] = "a", "b"
+		var m vrt.Mutex
+		done := vrt.MakeChan[bool](0)
+		vrt.Go(func() {
+			m.Lock()
+			files = vrt.Append(files[:0], "files[]", files[1:]...) // drop the first element in place
+			m.Unlock()
+			done.Send(true)
+		})
+		m.Lock()
+		snapshot := files
+		m.Unlock()
+		_ = strings.Join(vrt.RdSlice(snapshot, "files[]"), ",")
+		done.Recv()
+	}, " FAULT:data race on files[]: read/write", "") // (empty: the owner ran first, the snapshot was taken after its unlock)
+	run("race/slice-read-under-lock", 2, race, func(out *string) {
+		files := make([]string, 2, 4)
+		files[0], files[1] = "a", "b"
+		var m vrt.Mutex
+		done := vrt.MakeChan[bool](0)
+		vrt.Go(func() {
+			m.Lock()
+			files = vrt.Append(files[:0], "files[]", files[1:]...)
+			m.Unlock()
+			done.Send(true)
+		})
+		m.Lock()
+		*out = fmt.Sprint(len(strings.Join(vrt.RdSlice(files, "files[]"), ",")) > 0)
+		m.Unlock()
+		done.Recv()
+	}, "true")
+
 	// determinism: the same vector twice gives the same trace
 	{
 		ex := mc.New(2)
